@@ -33,7 +33,8 @@ func (w *c18Writer) Write(b []byte) (int, error) {
 	return len(b), nil
 }
 
-var frameRE = regexp.MustCompile(`^([A-Z]): (-?\d+)   (.*)                    ([\r\n])$`)
+// a frame: "<phase>: <count>", then spinner and padding (layout, not checked), then CR or LF
+var frameRE = regexp.MustCompile(`(?s)^([A-Z]): (-?\d+)(\s.*?)?([\r\n])$`)
 
 // c18Oracle checks the frame sequence of one execution. incs[phase] is the
 // number of Inc calls of that phase.
